@@ -116,9 +116,20 @@ impl AsRef<[u32]> for SmtString {
 /// assert_eq!(SmtString::from(""), EMPTY);
 /// assert_eq!(SmtString::from("\u{0331}"), SmtString::from(0x331));
 /// ```
+// Convert a Rust char to an SMT-LIB character:
+// code points larger than MAX_CHAR are replaced by REPLACEMENT_CHAR
+fn char_code(c: char) -> u32 {
+    let x = c as u32;
+    if x <= MAX_CHAR {
+        x
+    } else {
+        REPLACEMENT_CHAR
+    }
+}
+
 impl From<&str> for SmtString {
     fn from(x: &str) -> Self {
-        SmtString::make(x.chars().map(|c| c as u32).collect())
+        SmtString::make(x.chars().map(char_code).collect())
     }
 }
 
@@ -182,7 +193,7 @@ impl From<u32> for SmtString {
 ///
 impl From<char> for SmtString {
     fn from(x: char) -> SmtString {
-        SmtString::make(vec![x as u32])
+        SmtString::make(vec![char_code(x)])
     }
 }
 
@@ -222,7 +233,7 @@ fn new_automaton() -> ParsingAutomaton {
 impl ParsingAutomaton {
     // add char x to the string so far
     fn push(&mut self, x: char) {
-        self.string_so_far.push(x as u32);
+        self.string_so_far.push(char_code(x));
     }
 
     // add char x to the pending array
